@@ -102,6 +102,11 @@ FnProgs == {
     NCall(NVar("keys"), <<NArray(<<NObject(<<>>), O>>)>>), NCall(NVar("keys"), <<NObject(<<>>)>>),
     NCall(NVar("lookup"), <<NArray(<<O, NObject(<<>>), O>>), NStr(ka)>>), NCall(NVar("lookup"), <<NArray(<<O, NObject(<< Pair(NStr(kb), NNum(IntV(7))) >>)>>), NStr(kb)>>),
     NCall(NVar("lookup"), <<NArray(<<NObject(<< Pair(NStr(ka), NNum(IntV(1))) >>), NObject(<< Pair(NStr(kb), NNum(IntV(2))) >>)>>), NStr(ka)>>),
+    \* ... with array-valued members: the lookup is the field selection (one flat sequence)
+    NCall(NVar("lookup"), <<NArray(<<O, O>>), NStr(ka)>>), NCall(NVar("lookup"), <<NArray(<<O, NObject(<< Pair(NStr(ka), NArray(<<NNum(IntV(7))>>)) >>)>>), NStr(ka)>>),
+    NCmpOp("=", NCall(NVar("lookup"), <<NArray(<<O, NObject(<< Pair(NStr(ka), NArray(<<NNum(IntV(7)), NNum(IntV(8))>>)) >>)>>), NStr(ka)>>),
+                NPath(<<NArray(<<O, NObject(<< Pair(NStr(ka), NArray(<<NNum(IntV(7)), NNum(IntV(8))>>)) >>)>>), NName(ka)>>, FALSE)),
+    NCall(NVar("lookup"), <<NArray(<<NObject(<< Pair(NStr(ka), NArray(<<>>)) >>), O>>), NStr(ka)>>),
     NCall(NVar("each"), <<NObject(<<>>), NLambda(<<"v">>, NVar("v"))>>), NCall(NVar("sift"), <<NObject(<<>>), NLambda(<<"v">>, NBool(TRUE))>>),
     NCall(NVar("each"), <<O, NLambda(<<"v", "k", "o">>, NCmpOp("=", NVar("o"), O))>>) }
 
